@@ -9,7 +9,7 @@ CLAIM = {
          "live buffer ids are distinct and name the stored frame; using a live id emits exactly that frame through the given actions and frees it; "
          "stale/bogus ids emit nothing and change nothing; occupancy never exceeds the pool; a packet-in without a free buffer carries the whole "
          "frame and no id, otherwise at most miss_send_len bytes and total_len equal to the true frame length (checked on the encoded message)."
-         " Also: a flow table at capacity (O2), two switches in one process (O3), a buffered packet bounced to the controller again (O4) and a rewritten frame that misses the table (O5).",
+         " Also: a flow table at capacity (O2), two switches in one process (O3), a buffered packet bounced to the controller again (O4) and a rewritten frame that misses the table (O5). O6_snapshot: actions that go on rewriting the frame after output:CONTROLLER / output:TABLE do not change the buffered packet. O7_data_and_id: a packet_out with a buffer id and data uses and frees the buffer.",
  'note': "Trusted: CPython, z3, symx proxies/shims, the 30-line reference pool in props/C18.py. Buffer ids and lengths are concretised by solver-driven "
          "forking (one path per value), frame contents stay symbolic. Bounded by history length, pool size and frame length (20 bytes).",
 }
